@@ -1245,6 +1245,10 @@ class DestHandler:
 
     def _notice_of_cancellation(self, condition_code: ConditionCode) -> None:
         self.states.step = TransactionStep.TRANSFER_COMPLETION
+        # A cancelled transaction does not recover lost segments anymore. Without this, a fault
+        # declared while handling a re-sent PDU was followed by the completion of the lost segment
+        # procedure in the same call, which overwrote the condition code of the cancellation.
+        self._params.acked_params.deferred_lost_segment_detection_active = False
         self._params.finished_params.condition_code = condition_code
         self._params.completion_disposition = CompletionDisposition.CANCELED
 
